@@ -764,9 +764,19 @@ class ExpectationPropagation:
         # Normalise posteriors so that empirical mutation rate is constant
         likelihoods = self.edge_likelihoods if rescale_segsites \
             else self.sizebiased_likelihoods  # fmt: skip
+        # `mutation_phase` holds the probability of the edge each singleton was
+        # finally placed on (see `infer`), whereas `reallocate_unphased` expects
+        # the probability of the first edge of the block
+        singletons = self.mutation_blocks != tskit.NULL
+        first_edge = self.block_edges[self.mutation_blocks[singletons], 0]
+        on_second = self.mutation_edges[singletons] != first_edge
+        phase = self.mutation_phase.copy()
+        phase[singletons] = np.where(
+            on_second, 1 - phase[singletons], phase[singletons]
+        )
         reallocate_unphased(  # correct mutation counts for unphased singletons
             likelihoods,
-            self.mutation_phase,
+            phase,
             self.mutation_blocks,
             self.block_edges,
         )
